@@ -55,3 +55,8 @@ ASSUMPTIONS = [
 EXPLANATION = ('Every unit enforces a contract on an extern "C" marshalling wrapper around the real function compiled from the '
                'filtered /repo/src; operands are fully symbolic 64-bit values, so the result covers all 2^128 operand pairs and '
                'each aliasing pattern.  Postconditions mention operands only through canon(.), which is the residue-class claim.')
+MANIFEST_ENTRY = dict(
+    category='proof',
+    technique='CBMC code contracts (dfcc) on the real scalar functions; inline asm transliterated through an instruction table',
+    text='Every overload of add/sub/mul/square/neg/inc/dec/mulScalar and the operators is verified against a functional postcondition for all 64-bit operand values and all aliasing patterns (35 units, full domain, no bound). The product is proved in linear witness form for every 128-bit (hi,lo) pair plus a machine-checked congruence lemma.',
+    note='Trusted: the 9-entry x86 instruction table and GCC operand semantics (guarded by native translation validation), the exactness of the MUL instruction, CBMC/cadical, extraction rules; build configuration USE_MONTGOMERY==0.')
